@@ -344,6 +344,11 @@ CHECKS["C15"] = dict(
          "and in the executable joint handler RHJ.handleJ, whose refinement handleJ -> L1J -> RSJ is PROVED (RHJ.simJ, RHJ.handleJ_in_StepJ, RHJ.runJ_safe: the four safety properties for every run "
          "of that function) and which is compared with RawNode on EVERY event of the member-joint / member-joint-partition schedules (suite member-joint-lockstep: ConfChangeV2 of every shape inside "
          "lossy, partitioned, restarting schedules; projection, applied index, all five tracker fields, the leader's pendingConfIndex, every message); "
+         "TRANSPORT REPORTS (step 8): RawNode.ReportSnapshot(id, SnapshotFinish|SnapshotFailure) and ReportUnreachable(id) - what rafthttp tells the leader - are inputs of RS.handle "
+         "(snapStatus / unreachable): stutter steps that leave every Match alone (RS.snapStatus_never_changes_match, RS.snapStatus_stutters; the next heartbeat's Commit is "
+         "min(old Match, committed): RS.heartbeat_commit_after_report), with RS.reportProg for the follower's Progress record (BecomeProbe); suite snapstatus-lockstep replays "
+         "schedules in which a MsgSnap is reported finished / failed BEFORE it is delivered, a heartbeat overtakes it or the follower restarts without it (scripted opening: a "
+         "deposed leader with a stale tail, the new leader compacted past it): projection incl. match[] unchanged, the Progress record before -> after = reportProg, safety predicates. "
          "ReadIndex and leader transfer are outside both. Trusted: Lean kernel (propext, Classical.choice, Quot.sound), the Lean interpreter running the driver, the Go "
          "harness's projection/index shift/event classification, MemoryStorage as the persistence layer (the WAL is C16's subject). Flow control is abstracted "
          "(any true log slice is accepted), timers are not modelled (a tick is classified by its effect).",
